@@ -195,6 +195,7 @@ def judgeStep (s : JState) (e : Ev) : JState :=
   | .tafter n => if n = 0 then s else s.flag s!"callback-after-stop count={n}"
   | .tcleanup => { s with tInited := false, tActive := false }
   | .mt kind ok detail => if ok then s else s.flag s!"mt-{kind} {detail}"
+  | .hbrace _ ticked => if ticked then s else s.flag "timer-not-firing"
   | .race what => s.flag s!"data-race {what}"
   | .skip _ => s
 
